@@ -93,6 +93,27 @@ def ddl_rules(ctx, prefix='C26-DDL', which=('unique', 'ondelete', 'every')):
             ctx.ob(prefix + '.every-composite-unique-index-is-in-the-create-table', f, c, ok,
                    '' if ok else 'a composite unique index that is not the primary key can be left out of CREATE TABLE by a further condition (%s): the database no longer rejects '
                    'duplicates that the session cannot see' % norm(c)[:100], node=c)
+        # ... and a single-column unique index reaches CREATE TABLE through its column's flag: DBIndex.__init__ gives the column `is_unique` whenever
+        # the index is unique and has one column -- whatever else is true of the column (member of a composite primary key, nullable, ...)
+        fi = repo.fn(DS, 'DBIndex.__init__')
+        up = fi.params[5] if len(fi.params) > 5 else 'is_unique'
+        sets = [(t, v, st) for st in walk_no_nested(fi.node) for t, v in __import__('sa.q', fromlist=['assign_pairs']).assign_pairs(st)
+                if isinstance(t, ast.Attribute) and t.attr == 'is_unique' and dotted(t.value) != fi.recv and v is not None]
+        ctx.need(sets, prefix + ': DBIndex.__init__ no longer sets column.is_unique')
+        for t, v, st in sets:
+            def atom_u(text, node):
+                tt = text.replace(' ', '')
+                if tt == up: return True
+                m_ = re.fullmatch(r'len\(\w+\)(==|!=|<=|>=|<|>)(\d+)', tt)
+                if m_: return {'==': 1 == int(m_.group(2)), '!=': 1 != int(m_.group(2)), '<=': 1 <= int(m_.group(2)), '>=': 1 >= int(m_.group(2)),
+                               '<': 1 < int(m_.group(2)), '>': 1 > int(m_.group(2))}[m_.group(1)]       # the index has exactly one column
+                return None
+            from ..typestate import resolve_flags
+            while isinstance(v, ast.Call) and dotted(v.func) == 'bool' and len(v.args) == 1: v = v.args[0]
+            ok = eval_test(resolve_flags(fi.node, v), atom_u) is True
+            ctx.ob(prefix + '.single-column-unique-index-marks-its-column', fi, st, ok,
+                   '' if ok else '`%s` is not certain to be true for a unique index over one column (a further condition on the column can withhold it): CREATE TABLE then has no UNIQUE '
+                   'for that column and the database accepts duplicates the session cannot see' % norm(st)[:90], node=st)
     if 'ondelete' in which:
         f = repo.fn(DS, 'ForeignKey._get_create_sql'); g = cg.cfg(f)
         emits = [x for x in g.nodes if x.kind == 'stmt' and x.ast is not None and any(isinstance(k, ast.Constant) and isinstance(k.value, str) and 'ON DELETE' in k.value for k in ast.walk(x.ast))]
@@ -215,6 +236,8 @@ MUTANTS = [
     dict(id='C26-n1', file='pony/orm/core.py', fn='Database.generate_mapping', old="table.add_column(column_name, converter.get_sql_type(), converter, not attr.nullable)", new="table.add_column(column_name, converter.get_sql_type(), converter, attr.is_required)", expect='C26-NULLS'),
     dict(id='C26-m1', file='pony/orm/dbapiprovider.py', fn='DBAPIProvider.get_default_fk_name', old='        return provider.normalize_name(fk_name.lower())', new='        return provider.normalize_name(fk_name).lower() + "_fk"', expect='C26-LIMIT.default-name'),
     dict(id='C26-m2', file='pony/orm/dbapiprovider.py', fn='DBAPIProvider.get_default_m2m_column_names', old="            return [ normalize_name(entity.__name__.lower()) ]", new="            return [ entity.__name__.lower() ]", expect='C26-LIMIT.default-name'),
+    dict(id='C26-u1', file='pony/orm/dbschema.py', fn='DBIndex.__init__', old="column.is_unique = column.is_unique or (is_unique and len(columns) == 1)", new="column.is_unique = column.is_unique or (is_unique and len(columns) == 1 and not column.is_pk_part)", expect='C26-DDL.single-column-unique'),
+    dict(id='C26-u2', file='pony/orm/dbschema.py', fn='DBIndex.__init__', old="column.is_unique = column.is_unique or (is_unique and len(columns) == 1)", new="column.is_unique = bool(column.is_unique or is_unique and len(columns) < 2)", benign=True),
     dict(id='C26-m3', file='pony/orm/dbschema.py', fn='Column.get_sql', old="            else:\n                if column.is_unique: append(case('UNIQUE'))",
          new="            elif column.is_pk_part:\n                append(case('NOT NULL'))\n            else:\n                if column.is_unique: append(case('UNIQUE'))", expect='C26-FLAGS.column-flag'),
     dict(id='C26-m4', file='pony/orm/dbschema.py', fn='ForeignKey.__init__', old="        if name is not None and name in schema.names:\n            throw(DBSchemaError, 'Foreign key %s cannot be created, name is already in use' % name)\n", new='', expect='C26-UNIQUE'),
